@@ -1,0 +1,83 @@
+//! Verification hooks, only compiled with the `verif` cargo feature.
+//!
+//! `sched_point` is called at points *between* critical sections of the debugger's threads, where the
+//! OS scheduler could preempt the thread anyway. Depending on the environment it sleeps a seeded
+//! pseudo-random time (`MOS_VERIF_SCHED=<seed>,<max_us>`) and/or appends a line to a trace file
+//! (`MOS_VERIF_TRACE=<path>`). Without these variables it does nothing.
+use once_cell::sync::Lazy;
+use std::io::Write;
+use std::sync::atomic::{AtomicU64, Ordering};
+use std::sync::Mutex;
+use std::time::{Duration, Instant};
+
+struct Config {
+    seed: u64,
+    max_us: u64,
+    trace: Option<Mutex<std::fs::File>>,
+    start: Instant,
+}
+
+static CONFIG: Lazy<Config> = Lazy::new(|| {
+    let (seed, max_us) = match std::env::var("MOS_VERIF_SCHED") {
+        Ok(v) => {
+            let mut parts = v.split(',');
+            let seed = parts.next().and_then(|s| s.parse().ok()).unwrap_or(0);
+            let max_us = parts.next().and_then(|s| s.parse().ok()).unwrap_or(0);
+            (seed, max_us)
+        }
+        Err(_) => (0, 0),
+    };
+    let trace = std::env::var("MOS_VERIF_TRACE").ok().and_then(|p| {
+        std::fs::OpenOptions::new()
+            .create(true)
+            .append(true)
+            .open(p)
+            .ok()
+            .map(Mutex::new)
+    });
+    Config {
+        seed,
+        max_us,
+        trace,
+        start: Instant::now(),
+    }
+});
+
+static COUNTER: AtomicU64 = AtomicU64::new(0);
+
+fn splitmix(mut x: u64) -> u64 {
+    x = x.wrapping_add(0x9E3779B97F4A7C15);
+    let mut z = x;
+    z = (z ^ (z >> 30)).wrapping_mul(0xBF58476D1CE4E5B9);
+    z = (z ^ (z >> 27)).wrapping_mul(0x94D049BB133111EB);
+    z ^ (z >> 31)
+}
+
+/// `point` names the location, `pc`/`cycles` describe the machine as the calling thread last saw it
+pub fn sched_point(point: &str, pc: i64, cycles: i64) {
+    let cfg = &*CONFIG;
+    if cfg.max_us == 0 && cfg.trace.is_none() {
+        return;
+    }
+    let n = COUNTER.fetch_add(1, Ordering::Relaxed);
+    if let Some(trace) = &cfg.trace {
+        let mut f = trace.lock().unwrap();
+        let _ = writeln!(
+            f,
+            "{} {:?} {} {} {}",
+            cfg.start.elapsed().as_nanos(),
+            std::thread::current().id(),
+            point,
+            pc,
+            cycles
+        );
+    }
+    if cfg.max_us > 0 {
+        let r = splitmix(cfg.seed ^ n.wrapping_mul(0x2545F4914F6CDD1D));
+        // Sleep at roughly one in four points, so that threads get out of lockstep
+        if r & 3 == 0 {
+            let us = (r >> 8) % (cfg.max_us + 1);
+            std::thread::sleep(Duration::from_micros(us));
+        }
+    }
+}
